@@ -37,6 +37,16 @@ def make_config(rnd, n):
             "kw_overrides": rnd.random() < 0.4}
 
 
+def vary_config(cfg, rnd2):
+    """second stream of choices (kept apart so that the configurations of earlier seeds stay what they were): very short runs - the proposal count is
+    quantified over, 1 included - and one sampler object passed for all chains (`[sampler] * n`: the controller works on copies, one per chain)"""
+    if rnd2.random() < 0.3:
+        cfg["P"] = rnd2.choice([1, 1, 2, 3])
+        cfg["I"] = rnd2.choice([1, 1, 2])
+    cfg["shared_sampler"] = cfg["n"] > 1 and rnd2.random() < 0.25
+    return cfg
+
+
 def job(cfg, tmp, sleep_seed, sleep_scale):
     S, D = _hm()
     import hmclab.Samplers as SM
@@ -52,6 +62,8 @@ def job(cfg, tmp, sleep_seed, sleep_scale):
         s._v_sleep_seed = sleep_seed
         s._v_sleep_scale = sleep_scale
         samplers.append(s)
+    if cfg.get("shared_sampler"):
+        samplers = [samplers[0]] * n
     posts = [D.Normal(np.array(cfg["mu"]).reshape(-1, 1), float(T)) for T in cfg["temps"]]
     files = [os.path.join(tmp, f"t_{i}.h5") for i in range(n)]
     ctrl = S.ParallelSampleSMP(seed=cfg["controller_seed"])
@@ -59,7 +71,8 @@ def job(cfg, tmp, sleep_seed, sleep_scale):
                 initial_model=np.zeros((cfg["d"], 1)),
                 kwargs=dict({"disable_progressbar": True, "stepsize": cfg["step"]}, **({"proposals": cfg["P"] + cfg["I"], "overwrite_existing_file": False} if cfg.get("kw_overrides") else {})))
     sched = None if ctrl.exchange_schedule is None else np.array(ctrl.exchange_schedule).tolist()
-    out = {"schedule": sched, "files": [], "taps": []}
+    rep_ = ctrl.sampler_widget_data
+    out = {"schedule": sched, "files": [], "taps": [], "reported": sorted(rep_.keys()) if isinstance(rep_, dict) else repr(rep_)[:100]}
     for i in range(n):
         try:
             out["files"].append(read_samples(files[i]))
@@ -126,6 +139,33 @@ def capacity_suite(rnd, count, findings):
     return sc
 
 
+def limited_job(tmp):
+    """two tempered RWMH chains with exchange, each with its own max_time"""
+    S, D = _hm()
+    posts = [D.Normal(np.zeros((2, 1)), 1.0), D.Normal(np.zeros((2, 1)), 3.0)]
+    files = [os.path.join(tmp, f"lim_{i}.h5") for i in range(2)]
+    ctrl = S.ParallelSampleSMP(seed=1)
+    ctrl.sample([S.RWMH(seed=10), S.RWMH(seed=11)], files, posts, overwrite_existing_files=True, proposals=500000, exchange=True, exchange_interval=10,
+                initial_model=np.zeros((2, 1)), kwargs=[{"disable_progressbar": True, "max_time": 0.3}, {"disable_progressbar": True, "max_time": 0.6}])
+    return [list(read_samples(f).shape) for f in files]
+
+
+def time_limit_suite(findings):
+    sl = Suite("C12.time_limits", "pinned: two tempered RWMH chains with exchange every 10 proposals, 500000 proposals, max_time 0.3 s for one chain and 0.6 s for the other "
+               "(documented sampler arguments, passed through kwargs): the call must return; watchdog 25 s; non-trivial = all")
+    with scratch() as tmp:
+        status, res = supervised(limited_job, (tmp,), timeout=25, tmpdir=tmp)
+    stim = {"chains": 2, "proposals": 500000, "exchange_interval": 10, "max_time": [0.3, 0.6]}
+    sl.case(stim, nontrivial=True, sample=stim)
+    sl.count(f"outcome={status}")
+    if status != "ok":
+        what = (f"did not return within 25 s: {res.get('alive_processes')} processes alive in {[p.get('wchan') for p in res.get('processes', [])[:4]]}" if status == "timeout"
+                else f"raised {str(res)[:200]}")
+        findings.append(Finding("C12", f"parallel tempering with per-chain time limits (max_time 0.3 s / 0.6 s, exchange every 10 proposals) {what}",
+                                {"kind": "hang" if status == "timeout" else "raise", "max_time": True}, {"oracle": "timeout", "config": stim, "diagnostic": res}))
+    return sl
+
+
 def misfit_of(cfg, i, m):
     """chain i's own target misfit (Normal(mu, T_i I)), as hmclab computes it"""
     S, D = _hm()
@@ -135,6 +175,7 @@ def misfit_of(cfg, i, m):
 def run(tier, seed):
     rnd = random.Random(3935559000370003845 * (seed + 12) % (1 << 31))
     thorough = tier == "thorough"
+    rnd2 = random.Random(seed * 7919 + 12)
     findings = []
     st = Suite("C12.runs", "real ParallelSampleSMP runs with exchange (fork), n in 1..6 chains, P in 4..12, exchange interval 1..5 (dividing P or not), mixed HMC/RWMH, "
                "tempered targets, tapped samplers and logging pipe endpoints with scripted delays: completion within the time limit, `proposals` columns per chain, "
@@ -146,8 +187,8 @@ def run(tier, seed):
     xreqs, xmetas = [], []
     with scratch() as tmp:
         for ci, n in enumerate(ns):
-            cfg = make_config(rnd, n)
-            stim = {k: cfg[k] for k in ("n", "P", "I", "kinds", "kw_overrides")}
+            cfg = vary_config(make_config(rnd, n), rnd2)
+            stim = {k: cfg[k] for k in ("n", "P", "I", "kinds", "kw_overrides", "shared_sampler")}
             runs = []
             for rep, (ss, sc) in enumerate([(ci * 2 + 1, 0.004), (ci * 2 + 2, 0.0)]):
                 sub = os.path.join(tmp, f"c{ci}_{rep}")
@@ -177,6 +218,16 @@ def run(tier, seed):
                     problems.append(f"chain {i} wrote {f if isinstance(f, str) else f.shape[1]} columns for {P} proposals "
                                     f"(exchange_interval {I} {'divides' if P % I == 0 else 'does not divide'} proposals)")
                     break
+            want = sorted(str(i) for i in range(n))
+            if not problems and res.get("reported") != want:
+                # "completes without ... error": every chain process hands its end-of-run report to the controller; a chain that raised does not
+                problems.append(f"chains {sorted(set(want) - set(res['reported'] if isinstance(res['reported'], list) else []))} ended without handing their result "
+                                f"to the controller (their process raised): controller has {res['reported']} for {n} chains, proposals={P}"
+                                + (", one sampler object for all chains" if cfg.get("shared_sampler") else ""))
+            if P <= 3:
+                st.count(f"P={P}")
+            if cfg.get("shared_sampler"):
+                st.count("one sampler object for all chains")
             if len(runs) > 1 and runs[1][0] == "ok" and not problems:
                 for i in range(n):
                     a, b = res["files"][i], runs[1][1]["files"][i]
@@ -233,7 +284,7 @@ def run(tier, seed):
             if problems:
                 st.disagree(stim, "property holds", problems[:3], problems[0])
                 cat = ("stored-misfit" if "stored misfit" in problems[0] else "columns" if "columns for" in problems[0] else "keep-or-swap" if "neither kept" in problems[0]
-                       else "swap-rule" if "swapped=" in problems[0] else "delays" if "pipe delays" in problems[0] else "other")
+                       else "swap-rule" if "swapped=" in problems[0] else "delays" if "pipe delays" in problems[0] else "no-report" if "without handing" in problems[0] else "other")
                 findings.append(Finding("C12", problems[0], {"kind": "run", "problem": cat},
                                         {"oracle": "run", "config": cfg, "problems": problems}))
             # pipe event order vs the model's projection ---------------------------------------
@@ -261,7 +312,8 @@ def run(tier, seed):
         if not (common.vbits(ms, col_s[:-1]) and common.vbits(mm, col_m[:-1]) and common.close(xs, col_s[-1], 1e-12, 1e-12) and common.close(xm, col_m[-1], 1e-12, 1e-12)):
             sx.disagree(stim, {"slave": ms + [xs], "master": mm + [xm]}, {"slave": col_s.tolist(), "master": col_m.tolist()}, "states after the exchange differ from the model")
     sc = capacity_suite(rnd, 6 if thorough else 2, findings)
-    return [st, sx, sc], findings
+    sl = time_limit_suite(findings)
+    return [st, sx, sc, sl], findings
 
 
 def search(tier, seed, broken):
